@@ -1,7 +1,132 @@
-//! C16 (to be filled in)
+//! C16 — invalid invocations are rejected with no side effects
+
 use super::*;
-pub fn run(_ctx: &Ctx) -> Report {
-    let mut r = Report::new("model_checking", "not implemented");
-    r.machinery_errors.push("C16 not implemented yet".into());
-    r
+use crate::explore::Judge;
+use crate::scen::Entry;
+
+pub fn judge(_w: &Worker, scen: &Scenario, ex: &Exec) -> Judgement {
+    let exp = model::expect(scen);
+    let mut v = vec![];
+    if let Some(why) = &exp.reject {
+        if exit0(ex) {
+            v.push(format!("exit 0 for an invocation that cannot be honoured ({})", why));
+        }
+        for (k, b) in &ex.before {
+            match ex.snap.get(k) {
+                None => v.push(format!("{} disappeared ({})", k, why)),
+                Some(a) => {
+                    if let Some(d) = b.diff_all(a) {
+                        v.push(format!("{} changed: {} ({})", k, d, why));
+                    }
+                }
+            }
+        }
+        for k in ex.snap.keys() {
+            if !ex.before.contains_key(k) {
+                v.push(format!("{} was created although the invocation must be rejected ({})", k, why));
+            }
+        }
+    }
+    v.truncate(6);
+    let mut j = simple_judge(v, ex, exp.reject.is_some());
+    j.outcome_key = format!("{}:{}", ex.res.outcome.short(), exp.reject.clone().unwrap_or_else(|| "valid".into()));
+    j
+}
+
+fn dest_states() -> Vec<(&'static str, Vec<Entry>)> {
+    vec![
+        ("absent", vec![]),
+        ("file", vec![Entry::file("dst", "existing destination file").mtime(1_200_000_000, 1)]),
+        ("emptydir", vec![Entry::dir("dst")]),
+        ("populated", vec![Entry::dir("dst"), Entry::file("dst/v1", "earlier").mtime(1_200_000_000, 2), Entry::dir("dst/sd"), Entry::file("dst/sd/x", "deep").mtime(1_200_000_001, 3), Entry::file("dst/sdir", "name clash").mtime(1_200_000_002, 4)]),
+    ]
+}
+
+pub fn scenarios() -> Vec<Scenario> {
+    let mut v = vec![];
+    let base = || vec![Entry::file("v1", "valid one").mtime(1_300_000_000, 1), Entry::file("v2", "valid two").mtime(1_300_000_001, 2), Entry::dir("sdir"), Entry::file("sdir/in", "inside").mtime(1_300_000_002, 3)];
+    for d in drivers() {
+        for (dn, dstate) in dest_states() {
+            let mk = |name: &str, extra: Vec<Entry>, args: Vec<String>| {
+                let mut tree = base();
+                tree.extend(dstate.clone());
+                tree.extend(extra);
+                let mut a: Vec<String> = vec!["--driver".into(), d.into()];
+                a.extend(args);
+                let ar: Vec<&str> = a.iter().map(|s| s.as_str()).collect();
+                Scenario::new(&format!("reject-{}-dst{}-{}", name, dn, d), tree, &ar)
+            };
+            let s = |x: &[&str]| x.iter().map(|y| y.to_string()).collect::<Vec<String>>();
+            // positions of an offending argument among 0..2 valid ones
+            let positions = |bad: &str| -> Vec<(String, Vec<String>)> {
+                vec![
+                    ("alone".into(), s(&[bad, "dst"])),
+                    ("first".into(), s(&[bad, "v1", "v2", "dst"])),
+                    ("middle".into(), s(&["v1", bad, "v2", "dst"])),
+                    ("last".into(), s(&["v1", "v2", bad, "dst"])),
+                ]
+            };
+            v.push(mk("noargs", vec![], vec![]));
+            v.push(mk("onepath", vec![], s(&["v1"])));
+            for (pn, a) in positions("missing") {
+                v.push(mk(&format!("missing-source-{}", pn), vec![], a));
+            }
+            for (pn, a) in positions("sdir") {
+                v.push(mk(&format!("dir-without-r-{}", pn), vec![], a));
+            }
+            v.push(mk("several-sources-nondir-dest", vec![], s(&["v1", "v2", "dst"])));
+            v.push(mk("several-sources-nondir-dest-r", vec![], s(&["-r", "v1", "sdir", "dst"])));
+            v.push(mk("dir-onto-file", vec![], s(&["-r", "sdir", "dst"])));
+            v.push(mk("same-direct", vec![], s(&["v1", "v1"])));
+            v.push(mk("same-direct-dir", vec![], s(&["-r", "sdir", "sdir"])));
+            v.push(mk("same-via-dest-basename", vec![Entry::dir("into"), Entry::file("into/v1", "there").mtime(1_200_000_000, 9)], s(&["into/v1", "into"])));
+            v.push(mk("same-among-valid", vec![Entry::dir("into"), Entry::file("into/v1", "there").mtime(1_200_000_000, 9)], s(&["v2", "into/v1", "into"])));
+            for (pn, a) in positions("missing") {
+                let mut a2 = vec!["-n".to_string(), "-f".to_string()];
+                a2.extend(a);
+                v.push(mk(&format!("n-with-f-and-missing-{}", pn), vec![], a2));
+            }
+            v.push(mk("n-with-f", vec![], s(&["-n", "-f", "v1", "dst"])));
+            v.push(mk("n-with-f-r", vec![], s(&["-n", "-f", "-r", "sdir", "v1", "dst"])));
+            v.push(mk("unknown-reflink", vec![], s(&["--reflink", "sometimes", "v1", "dst"])));
+            v.push(mk("unknown-backup", vec![], s(&["--backup", "simple", "v1", "dst"])));
+            v.push(mk("bad-block-size", vec![], s(&["--block-size", "12parsecs", "v1", "dst"])));
+            v.push(mk("bad-block-size-r", vec![], s(&["-r", "--block-size", "", "sdir", "dst"])));
+            for (pn, a) in positions("v[") {
+                let mut a2 = vec!["-g".to_string()];
+                a2.extend(a);
+                v.push(mk(&format!("malformed-glob-{}", pn), vec![], a2));
+            }
+            for (pn, a) in positions("***") {
+                let mut a2 = vec!["-g".to_string()];
+                a2.extend(a);
+                v.push(mk(&format!("malformed-glob-stars-{}", pn), vec![], a2));
+            }
+            v.push(mk("glob-no-match", vec![], s(&["-g", "nomatch*", "dst"])));
+            v.push(mk("glob-no-match-2", vec![], s(&["-g", "zz?", "qq*", "dst"])));
+            v.push(mk("target-directory-missing-source", vec![], s(&["--target-directory", "dst", "v1", "missing"])));
+            v.push(mk("target-directory-no-source", vec![], s(&["--target-directory", "dst"])));
+        }
+        // unknown driver: the option value itself is the offence
+        for (dn, dstate) in dest_states() {
+            let mut tree = base();
+            tree.extend(dstate);
+            v.push(Scenario::new(&format!("reject-unknown-driver-dst{}-{}", dn, d), tree, &["--driver", "warp", "v1", "dst"]));
+        }
+    }
+    v
+}
+
+pub fn run(ctx: &Ctx) -> Report {
+    let mut rep = Report::new(
+        "model_checking",
+        "every rejection class of the property (no arguments, one path, missing source, directory without -r, several sources onto a non-directory, directory onto a file, source identical to destination directly and via dest/basename, -n with -f, unknown driver/reflink/backup values, unparsable block size, malformed glob, glob without match) x position of the offending argument {alone, first, middle, last} x destination state {absent, file, empty dir, populated dir} x both drivers, executed by the real binary under P0 and P1; oracle: exit != 0 and the whole sandbox identical before/after in every snapshot field incl. ctime and inode; non-trivial = the reference model classifies the invocation as one that cannot be honoured",
+    );
+    let j: Judge = &judge;
+    let sc = scenarios();
+    let n = sc.len();
+    let st = scen_batch(ctx, sc, &[Policy::P0, Policy::P1], j);
+    rep.part("rejection classes x positions x destination states", st, serde_json::json!({"scenarios": n}));
+    rep.assumptions = vec!["under -g a pattern matching nothing next to patterns that match is documented as dropped and is not among the property's classes".into()];
+    rep
 }
